@@ -28,14 +28,17 @@
    the specified values and leaves the server with the specified data and both buffers empty, for any fuel above
    the size of the store plus the length of the session.  GETSCRIPT of a script that does not exist (NO
    NONEXISTENT, the call returns None and mirrors the code) and LOGOUT are part of the specification
-   (C15_getscript_missing, C15_logout); CAPABILITY and the connection phase are covered by the correspondence
-   check (and C16 / C10) only. *)
+   (C15_getscript_missing, C15_logout), and so is CAPABILITY (ms/CapFacts.v: __read_response collects the
+   capability lines one by one, the call returns exactly the text the server wrote -- C15_capability; ms/TlsInv.v:
+   no operation but connect changes the server's TLS flag -- C15_tls_flag_invariant -- so the capability text is a
+   function of the abstract state carried through the session).  The SASL lists of the configuration are assumed
+   free of CR / LF.  Only the connection phase is left to the correspondence check (and C16 / C10). *)
 From Coq Require Import String.
 From Coq Require Import List NArith Bool Arith.
 From SV Require Import Bytes Base64 Client Transport Server Session WriterFacts StatusFacts DecodeFacts DataFacts SessionFacts SessionData.
 Import ListNotations.
 Local Open Scope nat_scope.
-From SV Require Import RenameAbs RenameData Spec SessionRename.
+From SV Require Import TlsInv CapFacts RenameAbs RenameData Spec SessionRename.
 
 (* the reference server, in step and authenticated, receiving the bytes of one single-status command: it parses exactly that command, answers with one status reply rendered from its abstract answer, and is in step again *)
 Theorem C15_server_receives_one_command :
@@ -269,6 +272,112 @@ Theorem C15_logout :
 Proof. exact SessionData.logout_k_gen. Qed.
 Print Assumptions C15_logout.
 
+(* __read_response over plain data lines followed by a status reply: the lines are collected in order, the reply consumed exactly *)
+Theorem C15_read_response_lines :
+  forall (P : Type) (react : P -> bytes -> P * bytes) (oc ot : P -> option (P * bytes))
+    (ls : list bytes) (r : reply) (f : nat) (ql : bool) (resp : bytes) 
+    (cpt : nat) (st : cstate) (k : cstate -> option bytes -> option bytes -> bytes -> prog)
+    (w : sworld P) (rest : list N),
+  Forall plain_line ls ->
+  reply_ok r ->
+  s_stream P w = lines_bytes ls ++ render_reply r ++ rest ->
+  interp_s P react oc ot (read_response (S (Datatypes.length ls + f)) None ql resp cpt st k) w =
+  match r_status r with
+  | StOK =>
+      interp_s P react oc ot (k st (Some (bs "OK")) (data_of r) (resp ++ lines_bytes ls))
+        (s_set P rest w)
+  | StNO =>
+      interp_s P react oc ot
+        (k (set_err (code_of r) (text_of r) st) (Some (bs "NO")) (data_of r)
+           (resp ++ lines_bytes ls)) (s_set P rest w)
+  | StBYE => (OFail ExBye st, s_set P (after_line r ++ rest) w)
+  end.
+Proof. exact CapFacts.read_response_lines. Qed.
+Print Assumptions C15_read_response_lines.
+
+(* CAPABILITY end to end: the call returns exactly the capability text the server wrote; server data untouched, buffers empty *)
+Theorem C15_capability :
+  forall (f : nat) (st : cstate) (w : sworld sstate) (k : kont),
+  s_stream sstate w = [] ->
+  live (s_peer sstate w) ->
+  fault_now (s_peer sstate w) = FNone ->
+  sasl_safe (s_peer sstate w) ->
+  let s := s_peer sstate w in
+  exists s3 : sstate,
+    runS (capability (S (5 + f)) st k) w =
+    runS (k st (VBytes (capabilities_bytes s)))
+      {|
+        s_peer := s3;
+        s_stream := [];
+        s_n := S (s_n sstate w);
+        s_conn := s_conn sstate w;
+        Transport.s_tls := Transport.s_tls sstate w;
+        s_log :=
+          WSend (s_conn sstate w) (Transport.s_tls sstate w)
+            (command_bytes (bs "CAPABILITY") []) :: s_log sstate w
+      |} /\
+    live s3 /\
+    s_faults s3 = s_faults s /\
+    s_count s3 = S (s_count s) /\
+    s_store s3 = s_store s /\ s_active s3 = s_active s /\ s_cfg s3 = s_cfg s.
+Proof. exact CapFacts.capability_k_gen. Qed.
+Print Assumptions C15_capability.
+
+(* no operation but connect changes the TLS flag of the server (no command does; no such program wraps the socket) *)
+Theorem C15_tls_flag_invariant :
+  forall (F : nat) (o : op) (st : cstate) (w : sworld sstate),
+  match o with
+  | OConnect _ _ _ _ _ => True
+  | _ => s_tls (s_peer sstate (snd (runS (run_op F o st) w))) = s_tls (s_peer sstate w)
+  end.
+Proof. exact TlsInv.run_op_tls. Qed.
+Print Assumptions C15_tls_flag_invariant.
+
+(* one operation against the specification, with everything a session carries along (TLS flag, SASL lists, names, data) *)
+Theorem C15_spec_op_invariants :
+  forall (F : nat) (ver : bool) (o : op) (st : cstate) (w : sworld sstate) 
+    (s : sstate) (v : value) (s' : sstate),
+  c_auth st = true ->
+  has_cap (bs "VERSION") st = ver ->
+  ok_world w ->
+  same_data s (s_peer sstate w) ->
+  s_tls s = s_tls (s_peer sstate w) ->
+  sasl_safe s ->
+  names_ok s ->
+  op_ok o ->
+  Datatypes.length (s_store s) < F ->
+  6 <= F ->
+  spec_op ver o s = Some (v, s') ->
+  exists (st1 : cstate) (w1 : sworld sstate),
+    runS (run_op F o st) w = (ODone v st1, w1) /\
+    c_auth st1 = true /\
+    c_caps st1 = c_caps st /\
+    ok_world w1 /\
+    same_data s' (s_peer sstate w1) /\
+    names_ok s' /\
+    Datatypes.length (s_store s') <= S (Datatypes.length (s_store s)) /\
+    s_tls s' = s_tls (s_peer sstate w1) /\ sasl_safe s'.
+Proof. exact SessionRename.spec_op_runs_inv. Qed.
+Print Assumptions C15_spec_op_invariants.
+
+(* non-vacuity: CAPABILITY and LOGOUT in a session, the capability text spelled out *)
+Theorem C15_session_capability_example :
+  spec_run false [OCapability; OLogout] demo_server =
+  Some ([VBytes (capabilities_bytes demo_server); VNone], demo_server) /\
+  sasl_safe demo_server /\
+  capabilities_bytes demo_server =
+  bs
+    ("""IMPLEMENTATION"" ""reference model""" ++
+     String (Ascii.ascii_of_nat 13) (String (Ascii.ascii_of_nat 10) "") ++
+     """SASL"" ""PLAIN""" ++
+     String (Ascii.ascii_of_nat 13) (String (Ascii.ascii_of_nat 10) "") ++
+     """SIEVE"" ""fileinto vacation""" ++
+     String (Ascii.ascii_of_nat 13) (String (Ascii.ascii_of_nat 10) "") ++
+     """VERSION"" ""1.0""" ++
+     String (Ascii.ascii_of_nat 13) (String (Ascii.ascii_of_nat 10) "")).
+Proof. exact SessionRename.session_capability_example. Qed.
+Print Assumptions C15_session_capability_example.
+
 (* sessions of all eight operations, any length, any encoding choices *)
 Theorem C15_session_with_data :
   forall (F : nat) (ops : list op) (st : cstate) (w : sworld sstate) 
@@ -306,10 +415,12 @@ Theorem C15_spec_op_runs :
   has_cap (bs "VERSION") st = ver ->
   ok_world w ->
   same_data s (s_peer sstate w) ->
+  s_tls s = s_tls (s_peer sstate w) ->
+  sasl_safe s ->
   names_ok s ->
   op_ok o ->
   Datatypes.length (s_store s) < F ->
-  3 <= F ->
+  6 <= F ->
   spec_op ver o s = Some (v, s') ->
   exists (st1 : cstate) (w1 : sworld sstate),
     runS (run_op F o st) w = (ODone v st1, w1) /\
@@ -329,10 +440,12 @@ Theorem C15_session_refines_spec :
   has_cap (bs "VERSION") st = ver ->
   ok_world w ->
   same_data s (s_peer sstate w) ->
+  s_tls s = s_tls (s_peer sstate w) ->
+  sasl_safe s ->
   names_ok s ->
   Forall op_ok ops ->
   Datatypes.length (s_store s) + Datatypes.length ops < F ->
-  3 <= F ->
+  6 <= F ->
   spec_run ver ops s = Some (vals, s') ->
   exists (outs : list outcome) (st' : cstate) (w' : sworld sstate),
     run_ops_s sstate srv_react srv_connect srv_tls F ops st w = (outs, st', w') /\
